@@ -20,8 +20,11 @@ P(addr, verb, host, ep) == [addr |-> addr, verb |-> verb, host |-> host, ep |-> 
 \* name in ANOTHER namespace ("{urn:other}look"): a pattern names its method, whatever the message of the method is called
 \* m10 / m11: the literal text of an address is TEXT, not a regular expression: "/get.user" is not "/getXuser", and "/a+b/1" is
 \* neither "/aab/1" nor "/ab/1" (SegMatch is equality)
+\* m12: a placeholder in the MIDDLE of an address, written in the other spelling the class accepts ("/item/{x}/rev"): one
+\* segment, never a slash, and the literal segments around it still have to be there
 Patterns == << P(<<"people", "<x>">>, NoneV, NoneV, "m8"),
                P(<<"lookup", "<x>">>, NoneV, NoneV, "m9"),
+               P(<<"item", "<x>", "rev">>, NoneV, NoneV, "m12"),
                P(<<"get.user">>, NoneV, NoneV, "m10"),
                P(<<"find">>, "GET", NoneV, "m7"),
                P(<<"b">>, NoneV, NoneV, "m3"),
@@ -30,13 +33,14 @@ Patterns == << P(<<"people", "<x>">>, NoneV, NoneV, "m8"),
                P(<<"a+b", "<x>">>, NoneV, NoneV, "m11"),
                P(<<"a">>, "GET", NoneV, "m1"),
                P(<<"a">>, "DELETE", NoneV, "m4") >>
-Endpoints == {"m1", "m2", "m3", "m4", "m5", "m6", "m7", "m8", "m9", "m10", "m11"}     \* m5 has no pattern; m7 is only reachable through its pattern
+Endpoints == {"m1", "m2", "m3", "m4", "m5", "m6", "m7", "m8", "m9", "m10", "m11", "m12"}     \* m5 has no pattern; m7 is only reachable through its pattern
 Verbs == {"GET", "DELETE", "HEAD"}
 Hosts == {"a.example", "b.example"}   \* host PATTERNS cannot be constructed on Python 3 (str/bytes mix in HttpPattern.__init__): only the request host varies
 Paths == {<<"a">>, <<"a", "1">>, <<"a", "1", "2">>, <<"a", "">>, <<"b">>, <<"ab">>, <<"A">>,
           <<"a", "list">>, <<"a", "list", "x">>, <<"x", "m5">>, <<"m5">>, <<"m1">>, <<"x", "m2">>, <<"zz">>, <<"a", "m5">>,
           <<"find">>, <<"lookup">>, <<"x", "find">>, <<"people", "joe">>, <<"lookup", "k1">>, <<"people">>, <<"x", "look">>, <<"x", "m9">>,
-          <<"get.user">>, <<"getXuser">>, <<"get", "user">>, <<"a+b", "1">>, <<"aab", "1">>, <<"ab", "1">>, <<"a+b">>, <<"a b", "1">>}
+          <<"get.user">>, <<"getXuser">>, <<"get", "user">>, <<"a+b", "1">>, <<"aab", "1">>, <<"ab", "1">>, <<"a+b">>, <<"a b", "1">>,
+          <<"item", "7", "rev">>, <<"item", "7">>, <<"item", "7", "rev", "x">>, <<"item", "7", "8", "rev">>, <<"item", "", "rev">>, <<"item", "rev">>}
 
 SegMatch(p, s)  == p = "<x>" \/ p = s
 AddrMatch(a, p) == Len(a) = Len(p) /\ \A i \in 1..Len(a) : SegMatch(a[i], p[i])
